@@ -10,6 +10,7 @@ import (
 	"net"
 	"os"
 	"path/filepath"
+	"syscall"
 	"testing"
 
 	"github.com/hugelgupf/p9/p9"
@@ -103,11 +104,31 @@ func vh19MkDir(t *testing.T, r *rand.Rand, n int, maxName int) string {
 	for i := 0; i < n; i++ {
 		p := filepath.Join(dir, vh19Name(r, i, maxName))
 		var err error
-		switch r.Intn(12) {
+		switch r.Intn(14) {
 		case 0:
 			err = os.Mkdir(p, 0o755)
 		case 1:
 			err = os.Symlink("target", p)
+		case 2: // named pipe
+			err = syscall.Mkfifo(p, 0o640)
+		case 3: // unix socket (bound, never accepted on); the path must fit sockaddr_un
+			if len(p) < 100 {
+				var ln net.Listener
+				ln, err = net.Listen("unix", p)
+				if err == nil {
+					if ul, ok := ln.(*net.UnixListener); ok {
+						ul.SetUnlinkOnClose(false)
+					}
+					ln.Close()
+				}
+			} else {
+				err = syscall.Mkfifo(p, 0o600)
+			}
+		case 4: // setuid / setgid / sticky bits
+			err = os.WriteFile(p, nil, 0o644)
+			if err == nil {
+				err = os.Chmod(p, []os.FileMode{0o755 | os.ModeSetuid, 0o750 | os.ModeSetgid, 0o777 | os.ModeSticky}[r.Intn(3)])
+			}
 		default:
 			err = os.WriteFile(p, nil, 0o644)
 		}
